@@ -182,7 +182,7 @@ func checkClearsignWith(c ClearsignCase, kr openpgp.EntityList, armored bool, kr
 
 var specC11 = Register(&Spec[ClearsignCase]{
 	Prop: "C11", Name: "clearsign",
-	Rule:  "fault enumeration over clearsigned documents: C07 documents (1..3 paragraphs, LF; a third with a field of Latin-1 / non-UTF-8 bytes) signed with clearsign.Encode by an RSA entity from a per-process pool; keyring = signer only / signer among others / others only / empty for the unmutated document; the same keyring OBJECT changed in place (to other keys, to no keys) between two reads of the same bytes - the second read must fail; then with the signer in the keyring EVERY single-byte substitution (XOR 0x01, XOR 0x20, 'A'), EVERY single-byte deletion, EVERY single-byte insertion ('A', blank, newline), EVERY truncation length, splices of a foreign paragraph before the armor, inside the signed text, between text and signature, inside the signature armor and after it, replacement of the signature by that of another key or of another text, and removal of the signature block; a second complete clearsigned document appended (same signer, other signer, a replay of the first); the binary signature truncated at 8 lengths or with one byte flipped (every byte in the thorough tier, every 7th in quick) and armored afresh with a correct checksum, alone and under an altered text; a good signature followed by junk, a NUL byte, a truncated or a damaged second signature, or with a well-formed user-ID or literal-data packet or an empty / one-byte / indeterminate-length signature packet in front of or behind it, inside a fresh armor; and for EVERY generated edit: if the armor then delivers the original signature plus further bytes, reading must fail; each character of the armor's CRC-24 line replaced by other printable characters, also with an armor-END look-alike or a whole second signed document behind the damaged block (must fail: the signature is damaged, as gpgv says too). Oracle: reading (ParagraphReader.All and Decoder.Decode) ends in an error, or succeeds with Signer() == signing entity in the keyring and paragraphs == those of the signed text; success with a nil signer is allowed only when the input no longer starts with the armor header; the unmutated document with the signer in the keyring must be accepted. Non-trivial: every faulted case; distinct by (bytes, keyring).",
+	Rule:  "fault enumeration over clearsigned documents: C07 documents (1..3 paragraphs, LF; a third with a field of Latin-1 / non-UTF-8 bytes) signed with clearsign.Encode by an RSA entity from a per-process pool; keyring = signer only / signer among others / others only / empty for the unmutated document and for signed documents with an empty or blank body; the same keyring OBJECT changed in place (to other keys, to no keys) between two reads of the same bytes - the second read must fail; then with the signer in the keyring EVERY single-byte substitution (XOR 0x01, XOR 0x20, 'A'; at line ends also CR, LF, blank, tab, NUL, VT, FF, 0x85), EVERY single-byte deletion, EVERY single-byte insertion ('A', blank, newline), EVERY truncation length, splices of a foreign paragraph before the armor, inside the signed text, between text and signature, inside the signature armor and after it, replacement of the signature by that of another key or of another text, and removal of the signature block; a second complete clearsigned document appended (same signer, other signer, a replay of the first); the binary signature truncated at 8 lengths or with one byte flipped (every byte in the thorough tier, every 7th in quick) and armored afresh with a correct checksum, alone and under an altered text; a good signature followed by junk, a NUL byte, a truncated or a damaged second signature, or with a well-formed user-ID or literal-data packet or an empty / one-byte / indeterminate-length signature packet in front of or behind it, inside a fresh armor; and for EVERY generated edit: if the armor then delivers the original signature plus further bytes, reading must fail; each character of the armor's CRC-24 line replaced by other printable characters, also with an armor-END look-alike or a whole second signed document behind the damaged block (must fail: the signature is damaged, as gpgv says too). Oracle: reading (ParagraphReader.All and Decoder.Decode) ends in an error, or succeeds with Signer() == signing entity in the keyring and paragraphs == those of the signed text; success with a nil signer is allowed only when the input no longer starts with the armor header; the unmutated document with the signer in the keyring must be accepted. Non-trivial: every faulted case; distinct by (bytes, keyring).",
 	Check: checkClearsign,
 })
 
@@ -259,6 +259,25 @@ func enumerateClearsignFaults(b SignBase, thorough bool, yield func(ClearsignCas
 	if !yield(c) {
 		return false
 	}
+	// a signed document with nothing in it is a signed document: the signature is checked before
+	// anyone looks at how much text there is
+	for bi, body := range []string{"", "\n", "\n\n \n"} {
+		if empty, err := signDoc(body, signer); err == nil {
+			ec := base
+			ec.Input, ec.Want = empty, nil
+			for _, kc := range []struct {
+				name string
+				kr   []byte
+				in   bool
+			}{{"signer", serializePublic(signer), true}, {"others-only", serializePublic(other), false}, {"empty", nil, false}} {
+				c := ec
+				c.Fault, c.Keyring, c.SignerInKR = fmt.Sprintf("empty-body-%d+keyring:%s", bi, kc.name), kc.kr, kc.in
+				if !yield(c) {
+					return false
+				}
+			}
+		}
+	}
 	n := len(signed)
 	mut := func(f func(out []byte) []byte) []byte { return f(append([]byte{}, signed...)) }
 	// the armor checksum: the line "=XXXX" before the END line of the signature
@@ -309,6 +328,17 @@ func enumerateClearsignFaults(b SignBase, thorough bool, yield func(ClearsignCas
 		if signed[i] != 'A' {
 			if !yield(mk(mut(func(o []byte) []byte { o[i] = 'A'; return o }), fmt.Sprintf("subst-A@%d", i))) {
 				return false
+			}
+		}
+		// line ends are where text-mode signatures are lenient: the other line-end byte, a blank, a
+		// tab, a NUL in the place of a line feed (and of a carriage return)
+		if signed[i] == '\n' || signed[i] == '\r' {
+			for _, nl := range []byte{'\r', '\n', ' ', '\t', 0, '\v', '\f', 0x85} {
+				if nl != signed[i] {
+					if !yield(mk(mut(func(o []byte) []byte { o[i] = nl; return o }), fmt.Sprintf("subst-lineend-%02x@%d", nl, i))) {
+						return false
+					}
+				}
 			}
 		}
 		if !yield(mk(mut(func(o []byte) []byte { return append(o[:i], o[i+1:]...) }), fmt.Sprintf("delete@%d", i))) {
